@@ -471,8 +471,49 @@ fn any_digest<const N: usize>() -> TDigestMut {
     }
 }
 
-fn roundtrip_case<const N: usize>() {
+/// `TDigestMut::make` without its two `Vec::reserve` capacity hints. In decoder harnesses k comes from the
+/// image, which symbolic execution does not see as a constant: reserving 2k+10 and 4(2k+10) elements is a
+/// reallocation to a symbolic size (measured: > 14 GB). Capacity is not observable behaviour; the capacity
+/// formula itself is the subject of c15_capacity_arithmetic.
+fn make_without_reserve(
+    k: u16,
+    reverse_merge: bool,
+    min: f64,
+    max: f64,
+    centroids: Vec<Centroid>,
+    centroids_weight: u64,
+    buffer: Vec<f64>,
+) -> TDigestMut {
+    assert!(k >= 10, "k must be at least 10");
+    let fudge = if k < 30 { 30 } else { 10 };
+    let centroids_capacity = (k as usize * 2) + fudge;
+    TDigestMut { k, reverse_merge, min, max, centroids, centroids_weight, centroids_capacity, buffer }
+}
+
+/// loop-free little-endian store (every loop of these harnesses has to fit a very small unwinding bound)
+fn put_le(b: &mut [u8], o: usize, v: u64, n: usize) {
+    b[o] = v as u8;
+    b[o + 1] = (v >> 8) as u8;
+    if n >= 4 {
+        b[o + 2] = (v >> 16) as u8;
+        b[o + 3] = (v >> 24) as u8;
+    }
+    if n >= 8 {
+        b[o + 4] = (v >> 32) as u8;
+        b[o + 5] = (v >> 40) as u8;
+        b[o + 6] = (v >> 48) as u8;
+        b[o + 7] = (v >> 56) as u8;
+    }
+}
+
+/// Round trip in the form that symbolic execution gets through: the image is rebuilt by a SPEC ENCODER
+/// (the documented t-digest layout; structural fields - preLongs, flags, counts - are literals), the real
+/// serialize() output must equal it byte for byte (C12), and the decoder is run on the spec image, whose
+/// structure is constant for symbolic execution (bytes read back from a heap Vec are not: the decoder
+/// would be explored down every branch with symbolic counts - measured: no verdict in 10 min).
+fn roundtrip_case<const N: usize, const LEN: usize>(rev: bool) {
     let mut d = any_digest::<N>();
+    d.reverse_merge = rev;
     if N == 1 {
         // single value: weight 1, min = max = the value
         d.centroids[0].weight = nz(1);
@@ -490,34 +531,47 @@ fn roundtrip_case<const N: usize>() {
         kani::assume(d.min <= d.centroids[0].mean && d.centroids[N - 1].mean <= d.max);
     }
     let k = d.k;
-    let rev = d.reverse_merge;
     let (min, max) = (d.min, d.max);
-    let bytes = d.serialize();
-    // ---- spec decoder (C12): t-digest layout of datasketches-java/cpp
-    assert!(bytes[1] == 1 && bytes[2] == 20, "serial version / family id");
-    assert!(rd_u16(&bytes, 3) == k, "k field");
-    assert!(rd_u16(&bytes, 6) == 0, "unused field");
-    let flags = bytes[5];
-    assert!((flags & 4 != 0) == rev, "reverse-merge flag");
-    if N == 0 {
-        assert!(bytes.len() == 8 && bytes[0] == 1 && flags & 1 != 0 && flags & 2 == 0, "empty image");
-    } else if N == 1 {
-        assert!(bytes.len() == 16 && bytes[0] == 1 && flags & 1 == 0 && flags & 2 != 0, "single-value image");
-        assert!(rd_u64(&bytes, 8) == min.to_bits(), "single value field");
-    } else {
-        assert!(bytes.len() == 32 + 16 * N, "image length is 8 + 8 + 16 + 16 * centroids");
-        assert!(bytes[0] == 2 && flags & 3 == 0, "multi-centroid preamble");
-        assert!(rd_u32(&bytes, 8) as usize == N && rd_u32(&bytes, 12) == 0, "centroid / buffered counts");
-        assert!(rd_u64(&bytes, 16) == min.to_bits() && rd_u64(&bytes, 24) == max.to_bits(), "min / max fields");
+    // ---- spec encoder: t-digest layout of datasketches-java/cpp
+    // (exact-size array of at most 64 bytes: CBMC constant-propagates array cells only up to 64 elements -
+    // with a larger buffer the decoder is explored down every branch even for literal bytes)
+    let mut img = [0u8; LEN];
+    let len = if N == 0 { 8 } else if N == 1 { 16 } else { 32 + 16 * N };
+    assert!(len == LEN);
+    img[0] = if N <= 1 { 1 } else { 2 }; // preamble longs
+    img[1] = 1; // serial version
+    img[2] = 20; // family id
+    put_le(&mut img, 3, 100, 2); // k
+    img[5] = (if N == 0 { 1 } else { 0 }) | (if N == 1 { 2 } else { 0 }) | (if rev { 4 } else { 0 });
+    if N == 1 {
+        put_le(&mut img, 8, min.to_bits(), 8);
+    } else if N >= 2 {
+        put_le(&mut img, 8, N as u64, 4); // centroids
+        put_le(&mut img, 12, 0, 4); // buffered values
+        put_le(&mut img, 16, min.to_bits(), 8);
+        put_le(&mut img, 24, max.to_bits(), 8);
         let mut i = 0;
         while i < N {
-            assert!(rd_u64(&bytes, 32 + 16 * i) == d.centroids[i].mean.to_bits(), "centroid mean field");
-            assert!(rd_u64(&bytes, 40 + 16 * i) == d.centroids[i].weight.get(), "centroid weight field");
+            put_le(&mut img, 32 + 16 * i, d.centroids[i].mean.to_bits(), 8);
+            put_le(&mut img, 40 + 16 * i, d.centroids[i].weight.get(), 8);
             i += 1;
         }
     }
-    // ---- round trip (C11)
-    let r = TDigestMut::deserialize(&bytes, false);
+    // ---- the real encoder writes exactly that (C12, C18: the length)
+    let bytes = d.serialize();
+    assert!(bytes.len() == len, "image length is not 8 (+8) (+16 + 16 * centroids)");
+    assert!(k == 100);
+    // compared in 8-byte words, unrolled: every loop of the harness must fit the small unwinding bound that
+    // keeps the decoder's count-driven loops (the count is not a constant for symbolic execution) from being
+    // unrolled dozens of times with a Vec::push in each copy
+    macro_rules! same_word {
+        ($($i:expr),*) => { $( if 8 * $i < len {
+            assert!(rd_u64(&bytes, 8 * $i) == rd_u64(&img, 8 * $i), "serialized bytes differ from the documented layout");
+        } )* };
+    }
+    same_word!(0, 1, 2, 3, 4, 5, 6, 7, 8, 9);
+    // ---- round trip (C11) on the (byte-identical) spec image
+    let r = TDigestMut::deserialize(&img[..len], false);
     let g = crate::verif_kani_common::expect_ok(r, "own image rejected");
     assert!(g.k == k, "k changed");
     assert!(g.total_weight() == d.total_weight(), "total weight changed");
@@ -538,12 +592,13 @@ fn roundtrip_case<const N: usize>() {
 }
 
 macro_rules! td_roundtrip {
-    ($name:ident, $n:expr) => {
+    ($name:ident, $n:expr, $len:expr, $rev:expr, $unwind:expr) => {
         #[kani::proof]
-        #[kani::unwind(60)]
+        #[kani::unwind($unwind)]
         #[kani::stub(alloc::fmt::format, stub_format)]
+        #[kani::stub(TDigestMut::make, make_without_reserve)]
         fn $name() {
-            roundtrip_case::<$n>();
+            roundtrip_case::<$n, $len>($rev);
             kani::cover!(true);
         }
     };
@@ -555,30 +610,24 @@ macro_rules! td_roundtrip {
 //@ timeout: 1800
 //@ functions: tdigest::TDigestMut::serialize
 //@ functions: tdigest::TDigestMut::deserialize
-//@ unwind: 60
-//@ bounds: compressed digests with the instance's number of centroids (0, 1 = single value, 2, 3); k = 100; flags, min, max, means (any finite f64 bit pattern) and weights (1..2^32) symbolic
-//@ desc: the image follows the t-digest layout (preLongs 1/2, serVer 1, family 20, k u16 @3, flags @5 empty|single|reverse, counts @8/@12, min/max f64 @16/@24, then (mean f64, weight u64) pairs) as read by an independent decoder, its length is 8 (+8) (+16+16n), and deserialize(serialize(d)) restores every field bit for bit
-td_roundtrip!(c11_tdigest_roundtrip_0, 0); //@ tier: quick
-td_roundtrip!(c11_tdigest_roundtrip_1, 1); //@ tier: quick
-td_roundtrip!(c11_tdigest_roundtrip_2, 2); //@ tier: quick
-td_roundtrip!(c11_tdigest_roundtrip_3, 3);
+//@ unwind: 5
+//@ bounds: compressed digests with the instance's number of centroids (0, 1 = single value, 2, 3) and merge direction; k = 100; min, max, means (any finite f64 bit pattern) and weights (1..2^32) symbolic
+//@ desc: the image follows the t-digest layout (preLongs 1/2, serVer 1, family 20, k u16 @3, flags @5 empty|single|reverse, counts @8/@12, min/max f64 @16/@24, then (mean f64, weight u64) pairs) - serialize() equals, byte for byte, the image a spec encoder written from the format documentation produces; its length is 8 (+8) (+16+16n); and deserializing that image restores every field bit for bit
+td_roundtrip!(c11_tdigest_roundtrip_0, 0, 8, false, 3); //@ tier: quick
+td_roundtrip!(c11_tdigest_roundtrip_1, 1, 16, false, 3); //@ tier: quick
+td_roundtrip!(c11_tdigest_roundtrip_1_rev, 1, 16, true, 3); //@ tier: quick
+td_roundtrip!(c11_tdigest_roundtrip_2, 2, 64, true, 4);
+td_roundtrip!(c11_tdigest_roundtrip_2_fwd, 2, 64, false, 4);
+td_roundtrip!(c11_tdigest_roundtrip_3, 3, 80, false, 5);
 //@ endfamily: x
 
-//@ props: C14
-//@ tier: quick
-//@ timeout: 1800
-//@ functions: tdigest::TDigestMut::deserialize
-//@ functions: tdigest::TDigestMut::deserialize_compat
-//@ bounds: every byte string of length 0..=64, both the f64 and the f32 reading mode, including the two big-endian reference-implementation (compat) encodings
-//@ desc: deserialize returns Ok or Err without panic / overflow for every byte string; an Ok value has finite centroid means and non-zero weights
-#[kani::proof]
-#[kani::unwind(8)]
-#[kani::stub(alloc::fmt::format, stub_format)]
-fn c14_tdigest_any_bytes() {
+fn tdigest_any_bytes_case(is_f32: bool, compat: bool) {
     let img: [u8; 64] = kani::any();
     let len: usize = kani::any();
     kani::assume(len <= 64);
-    let is_f32: bool = kani::any();
+    // the reference-implementation (compat) encodings are entered through three zero bytes
+    let zero3 = img[0] == 0 && img[1] == 0 && img[2] == 0;
+    kani::assume(zero3 == compat);
     let r = TDigestMut::deserialize(&img[..len], is_f32);
     kani::cover!(r.is_ok());
     kani::cover!(r.is_err());
@@ -595,6 +644,32 @@ fn c14_tdigest_any_bytes() {
         core::mem::forget(r);
     }
 }
+
+macro_rules! td_any_bytes {
+    ($name:ident, $f32:expr, $compat:expr) => {
+        #[kani::proof]
+        #[kani::unwind(8)]
+        #[kani::stub(alloc::fmt::format, stub_format)]
+        fn $name() {
+            tdigest_any_bytes_case($f32, $compat);
+        }
+    };
+}
+
+//@ family: td_any_bytes
+//@ props: C14
+//@ tier: thorough
+//@ timeout: 2400
+//@ functions: tdigest::TDigestMut::deserialize
+//@ functions: tdigest::TDigestMut::deserialize_compat
+//@ unwind: 8
+//@ stubs: alloc::fmt::format -> empty string
+//@ bounds: every byte string of length 0..=64; one reading mode per instance: native images read as f64, native images read as f32, and the two big-endian reference-implementation (compat) encodings (entered through three zero bytes; the f64/f32 flag is irrelevant there)
+//@ desc: deserialize returns Ok or Err without panic / overflow for every byte string; an Ok value has k >= 10 and finite centroid means
+td_any_bytes!(c14_tdigest_any_bytes_f64, false, false); //@ tier: quick
+td_any_bytes!(c14_tdigest_any_bytes_f32, true, false); //@ tier: quick
+td_any_bytes!(c14_tdigest_any_bytes_compat, false, true); //@ tier: quick
+//@ endfamily: x
 
 fn put_be_f64(b: &mut [u8], o: usize, v: f64) {
     let x = v.to_bits();
@@ -886,3 +961,4 @@ fn c10_merge_absorbs_weight_and_extremes() {
     kani::cover!(!rev && omax > a);
     core::mem::forget((d, o));
 }
+
